@@ -131,6 +131,13 @@ def cases(tier):
                         c = dict(d)
                         c.update({'grid': g, 'ff': ff, 'fs': fs, 'mix': mix})
                         out.append(c)
+        # the same bundle raised above a lower reflector (the grid term is per bundle length,
+        # not per elevation): pure Cheng-Todreas triples, every grid model
+        for g in ('K', 'REH', 'CDD'):
+            for fam in ('CTD', 'UCTD'):
+                c = dict(d)
+                c.update({'grid': g, 'ff': fam, 'fs': fam, 'mix': fam, 'zoff': 0.6})
+                out.append(c)
     return out
 
 
@@ -150,13 +157,20 @@ def reader_cases(tier):
 
 def scenario_of(c):
     n = c['rings']
+    zoff = float(c.get('zoff') or 0.0)     # bundle raised above a lower reflector (same bundle length)
+    sp = GRIDS[c['grid']]
+    regions = None
+    if zoff:
+        regions = {'lower': {'z_lo': 0.0, 'z_hi': zoff, 'vf_coolant': 0.3}}
+        if sp:
+            sp = dict(sp, axial_positions=[z + zoff for z in sp['axial_positions']])
     dsn = S.design(n, pd=c['pd'], hd=c['hd'] if c['wire'] else 30.0,
                    wire=c['wire'], clearance=c['clr'],
                    oftf=0.012 * n + 0.03,
                    corr=(c['ff'], c['fs'], c['mix']),
-                   spacer=GRIDS[c['grid']])
-    return S.single(dsn, 1.0, length=LENGTH, coolant=COOLANT,
-                    power={'rings': n, 'nduct': 1, 'cells': [0.0, LENGTH],
+                   spacer=sp, regions=regions)
+    return S.single(dsn, 1.0, length=LENGTH + zoff, coolant=COOLANT,
+                    power={'rings': n, 'nduct': 1, 'cells': [0.0, LENGTH + zoff],
                            'q': 1000.0, 'pins': 'uniform'})
 
 
@@ -419,6 +433,8 @@ def run_case(c):
                               'ff', 'fs', 'mix')}
     if c.get('probe'):
         base['probe'] = c['probe']
+    if c.get('zoff'):
+        base['zoff'] = c['zoff']
     ex = {'accept': {}, 'levels': {}, 'dpdz': {}, 'bundle_eq': 0, 'passed_by_x_distance': 0, 'approx_fallback_levels': 0,
           'exact_hits': 0, 'exact_miss': 0, 'construct_rejected': {}}
     r['extra'] = ex
